@@ -577,4 +577,5 @@ THEOREMS = THEOREMS + ["OdxVerif.Codec." + t for t in [
     "decodeDct_obj_exact", "encodeDop_conv", "decodeDop_conv", "encodeParam_conv", "decodeParam_conv",
     "DComp.muxConv_okM", "DComp.muxConv_ok", "DComp.muxConv_endOk", "DComp.mux_ok_lin",
     "DComp.dynLenFieldConv_okM", "DComp.dynLenFieldConv_endOk", "DComp.dynLenField_ok_lin",
-    "ex9_described", "ex9Temp_ok", "ex9Err_ok", "ex9Key_ok", "ex9Cnt_ok", "ex10_described"]]
+    "ex9_described", "ex9Temp_ok", "ex9Err_ok", "ex9Key_ok", "ex9Cnt_ok", "ex10_described", "ex10Temp_ok",
+    "C01_linear_float_leaf_ok", "ex11Temp_ok", "ex11_described"]]
